@@ -401,3 +401,31 @@ CHECKS["C15"] = dict(
          "spatialpandas/matplotlib are external.",
     technique="Lean 4 theorems over an executable model (index algebra + cache state machine) + differential correspondence with Lean-evaluated spec",
 )
+
+CHECKS["C08"] = dict(
+    text=("Lean theorems (UxVerif.C08, core Lean) about an executable model of Grid's lazy state: a world = grids + module globals; "
+          "per grid a store driven by a TABLE of populate units (reads / writes / presence guards / inputs / overwrite / module write), "
+          "F5 cells, keyed caches; results are terms and the reference `fr` is the pure recursion over the source. For EVERY table passing "
+          "the decidable check wfB, histories of ANY length over ANY number of grids, sources opened at any point: memo_sound (a getter "
+          "returns the reference value, only adds entries, leaves globals alone), lookup_sound (a keyed cache whose reuse test implies 'same "
+          "object' returns compute(key) after any request history), world_history_independent (any value operation after any history = before "
+          "= what a freshly opened copy returns), frame / frame_results, globals_const, export_superset (export ⊇ fresh export, every entry "
+          "= reference value), traceOK_iff (the Boolean the driver evaluates on the IMPLEMENTATION's observed trace is the stated spec). "
+          "ux_wfVar / ux_mwf prove the transcription of the library well-formed for EVERY source signature (faces + lon/lat or xyz, "
+          "anything else optional); ux_history_independent is the end-to-end statement. asis_globals_change / asis_leak / asis_replace / "
+          "asis_chunk_areas / asis_jacobian / asis_tree_key / asis_line_key / asis_raw_node_lon / asis_not_wf are the proved counterexamples "
+          "for the snapshot's defects (seven repaired by fix commits). Tie: history fuzzing — every step of witness, chunk->X, pair, "
+          "saturation, argument cross-talk and random histories (1..3 grids, 14+ sources incl. supplied edge tables, Cartesian-only, float32 "
+          "UGRID and MPAS files) is compared with the fresh-copy reference computed in a separate worker that restores every container of "
+          "uxarray.conventions.*/constants; exports and inventories by the superset rule; globals digested before/after each op; verdict = Lean "
+          "traceOK on the observed trace; the Lean model predicts Grid._ds's variable set and dask flags after every step; JIT-off worker; "
+          "thorough: all pairs, fresh interpreters, leanchecker."),
+    note=_TB + "Proved: the memoisation/cache/world theorems above, for the model. Differential-test level only: that each public method reads "
+          "exactly what the table says (Grid._ds vs model store after every step), JIT on/off equality (floats to 1e-5 rel / 1e-8 abs), dask "
+          "semantics, numpy/xarray/sklearn/shapely/matplotlib behind the observations, results of isel/subset/get_dual/copy (opaque terms; "
+          "observed by a digest of the returned grid). Inventory attributes (dims, sizes, coordinates, connectivity, descriptors) and "
+          "to_xarray('ugrid') are judged by the property's export clause (superset with fresh values); quadrature orders restricted to the "
+          "documented ones; normalize_cartesian_coordinates / construct_face_centers are mutators and not part of histories. One known finding "
+          "(JIT on: float32 Cartesian areas raise a numba TypingError, JIT off they do not).",
+    technique="Lean 4 theorems over a table-driven memo/cache state machine (transcription proved well-formed; as-is counterexamples) + history-fuzzing correspondence with Lean-evaluated trace spec",
+)
